@@ -94,8 +94,8 @@ func buildAr(members []arMember) []byte {
 	var buf bytes.Buffer
 	buf.WriteString("!<arch>\n")
 	for _, m := range members {
-		// owner and group ids fill their six columns; the mode fills its eight
-		fmt.Fprintf(&buf, "%-16s%-12d%-6d%-6d%-8s%-10d`\n", m.Name, 1433153120, 123456, 654321, "37777775", len(m.Data))
+		// owner and group ids fill their six columns; the mode fills its eight; the timestamp is a ten-digit number beyond 2^32
+		fmt.Fprintf(&buf, "%-16s%-12d%-6d%-6d%-8s%-10d`\n", m.Name, 5656124762, 123456, 654321, "37777775", len(m.Data))
 		buf.Write(m.Data)
 		if len(m.Data)%2 == 1 {
 			buf.WriteByte('\n')
